@@ -15,11 +15,12 @@ import (
 // ---- workloads shared by C01 C02 C03 C08 C12 C17 ----
 
 type workload struct {
-	Name  string
-	Pre   []scen.Step
-	Steps []scen.Step
-	OnC   [][]scen.InMsg
-	Slow  bool
+	PingMs, TimeoutMs int // keep-alive interval and ping/connect timeout (0: off / default)
+	Name              string
+	Pre               []scen.Step
+	Steps             []scen.Step
+	OnC               [][]scen.InMsg
+	Slow              bool
 }
 
 func pub(q byte, tag string) scen.Step { return scen.Step{Op: "pub", QoS: q, Tag: tag} }
@@ -40,6 +41,11 @@ func inj(tag string, q byte) scen.Step {
 func handle(h int) scen.Step { return scen.Step{Op: "handle", H: h} }
 
 var workloads = map[string]workload{
+	// keep-alive running: PINGREQ/PINGRESP interleave with the exchanges; a silent period ends a connection by ping timeout
+	"ka": {PingMs: 2, TimeoutMs: 9, Steps: []scen.Step{pub(1, "a"), pub(2, "b"), {Op: "sleep", Ms: 5}, pub(1, "c"), op("silentping"), pub(2, "d"), {Op: "sleep", Ms: 14}, sub(ss("u/s1", 1)), op("pingok"), pub(1, "e"), {Op: "sleep", Ms: 5}, pub(2, "f")}},
+	// a responding handler publishes through the retrying client from inside the reader goroutine
+	"respond": {Pre: []scen.Step{handle(91)}, OnC: [][]scen.InMsg{{{Tag: "m0", QoS: 1}}, {{Tag: "n0", QoS: 0}}},
+		Steps: []scen.Step{pub(1, "a"), inj("i1", 1), pub(2, "b"), op("cut"), inj("i2", 2), pub(1, "c"), inj("i3", 0), pub(1, "d")}},
 	"subs7": {Steps: []scen.Step{pub(1, "p0"), sub(ss("a", 1)), unsub("a"), sub(ss("b", 1)), sub(ss("b", 2)), pub(1, "p1")}},
 	"q2sub": {Steps: []scen.Step{subw(ss("u/s1", 1)), pub(2, "a"), sub(ss("u/s2", 2)), pub(2, "b"), op("cut"), pub(2, "c")}},
 	// the client subscribes to what it publishes: inbound traffic (acknowledged by the reader goroutine) runs
@@ -148,7 +154,7 @@ func (p retryParams) base() scen.Scenario {
 	if p.W == "echo" {
 		p.Cfg.Echo = true
 	}
-	return scen.Scenario{Client: cl, Cfg: p.Cfg, AlwaysResub: p.Always, Chunk: p.Chunk, LateWriteOK: p.Late, SlowReturn: p.Slow, Pre: w.Pre, Steps: w.Steps, OnConnect: w.OnC, SlowActive: w.Slow}
+	return scen.Scenario{Client: cl, Cfg: p.Cfg, AlwaysResub: p.Always, Chunk: p.Chunk, LateWriteOK: p.Late, SlowReturn: p.Slow, Pre: w.Pre, Steps: w.Steps, OnConnect: w.OnC, SlowActive: w.Slow, PingMs: w.PingMs, TimeoutMs: w.TimeoutMs}
 }
 
 func cfgName(c scen.BrokerCfg, always bool, chunk int, late bool) string {
